@@ -5,6 +5,7 @@ CONSTANT M = 3
 CONSTANT MaxLen = 6
 CONSTANT Emit = FALSE
 INVARIANT DataValid
+INVARIANT DataValidDeficit
 INVARIANT DataMonotone
 INVARIANT DataDistribution
 INVARIANT EmpiConsistent
